@@ -313,7 +313,9 @@ pub fn run(toks: &[&str], fails: &mut Vec<(String, String)>) -> String {
                             .map(|x| if x.is_nan() { "7ff8000000000000".to_string() } else { format!("{:016x}", x.to_bits()) })
                             .unwrap_or_else(|| "unparsable".into())
                     };
-                    format!("0:{counts};P={},R={},F={}", bits("Precision: "), bits("Recall: "), bits("F1: "))
+                    // … and as the decimal TEXT the tool printed (the model prints Rust's shortest round-trip representation itself)
+                    let text = |key: &str| -> String { stdout.lines().find_map(|l| l.strip_prefix(key)).map(|v| v.to_string()).unwrap_or_else(|| "missing".into()) };
+                    format!("0:{counts};P={},R={},F={};D={},{},{}", bits("Precision: "), bits("Recall: "), bits("F1: "), text("Precision: "), text("Recall: "), text("F1: "))
                 } else {
                     format!("{code}:stdout={}", hex(stdout.as_bytes()))
                 }
